@@ -360,10 +360,14 @@ class TAPParser:
     num_tests = 0
     last_test = 0
     highest_test = 0
+    duplicate_test = False
     yaml_lineno: T.Optional[int] = None
     yaml_indent = ''
     state = _MAIN
     version = 12
+
+    def __init__(self) -> None:
+        self.seen_tests: T.Set[int] = set()
 
     def parse_test(self, ok: bool, num: int, name: str, directive: T.Optional[str], explanation: T.Optional[str]) -> \
             T.Generator[T.Union['TAPParser.Test', 'TAPParser.Error'], None, None]:
@@ -433,6 +437,9 @@ class TAPParser:
                 self.num_tests += 1
                 self.last_test = self.last_test + 1 if m.group(2) is None else int(m.group(2))
                 self.highest_test = max(self.highest_test, self.last_test)
+                if self.last_test in self.seen_tests:
+                    self.duplicate_test = True
+                self.seen_tests.add(self.last_test)
                 if self.plan and self.last_test > self.plan.num_tests:
                     yield self.Error('test number exceeds maximum specified in test plan')
                 yield from self.parse_test(m.group(1) == 'ok', self.last_test,
@@ -500,6 +507,8 @@ class TAPParser:
                     yield self.Error(f'Duplicate test numbers (expected {self.num_tests}, got test numbered {self.highest_test}')
                 else:
                     yield self.Error(f'Missing test numbers (expected {self.num_tests}, got test numbered {self.highest_test}')
+            elif self.duplicate_test:
+                yield self.Error('Duplicate test numbers (a test number was used more than once)')
 
 class TestLogger:
     def flush(self) -> None:
